@@ -191,6 +191,14 @@ CURATED: Dict[str, Spec] = {
             ("hd", HD()),
         )),
     ),
+    # deep history below a region whose sibling's key extends its own key
+    "CUR14": C(
+        ("P", P(
+            ("doc", C(("clean", A()), ("dirty", A()), ("hd", HD()))),
+            ("doc_view", C(("list", A()), ("grid", A()))),
+        )),
+        ("O", A()),
+    ),
     "CUR9": C(
         ("W", C(
             ("s1", A()),
